@@ -328,7 +328,7 @@ func TestVerif_C01(t *testing.T) {
 	triples(core3b)
 
 	// --- sampled: long lists, permutations, duplications
-	nLists := pick(r, 3000, 200000)
+	nLists := pick(r, 3000, 80000)
 	batches := pick(r, 60, 2000)
 	per := nLists / batches
 	r.Parallel(batches, func(l *Local) {
